@@ -19,6 +19,7 @@ import (
 	"golang.org/x/crypto/ssh"
 	"golang.org/x/crypto/ssh/agent"
 
+	agssh "github.com/theparanoids/ysshra/agent/ssh"
 	"github.com/theparanoids/ysshra/csr"
 	"github.com/theparanoids/ysshra/gensign"
 	"github.com/theparanoids/ysshra/verifharness/lib/ev"
@@ -100,6 +101,7 @@ func main() {
 		}
 		wg.Wait()
 		handlerLists(r)
+		helper(r, mon)
 		// bit balance over all 64-byte challenges
 		if mon.n >= 1000 {
 			sigma := math.Sqrt(float64(mon.n)) / 2
@@ -372,6 +374,102 @@ func sequence(r *ev.Run, c *ev.Case, seqNo int, mon *chalMon) {
 				return
 			}
 		}
+	}
+}
+
+// helper drives the exported proof-of-possession helper agent/ssh.ChallengeSSHAgent with the same agent behaviours:
+// it may return nil only if the agent answered a fresh challenge with a signature that verifies under the given key.
+func helper(r *ev.Run, mon *chalMon) {
+	if !r.Want("helper") {
+		return
+	}
+	n := r.Pick(200, 4000)
+	for i := 0; i < n; i++ {
+		c := r.Case("helper", i)
+		if c == nil {
+			continue
+		}
+		rng := c.Rand
+		pool := gen.Pool()
+		user, other := pool[rng.Intn(len(pool))], pool[rng.Intn(len(pool))]
+		if user == other {
+			continue
+		}
+		beh := []string{"honest-with-key", "honest-without-key", "other-key", "flipped-data", "empty-signature", "wrong-format", "garbage-reply", "failure", "close", "wrong-type-reply"}[rng.Intn(10)]
+		r.Guard(c, "ChallengeSSHAgent", beh, func() {
+			ag := wire.New()
+			defer ag.Close()
+			if beh != "honest-without-key" {
+				ag.Keyring.Add(agent.AddedKey{PrivateKey: user.Priv})
+			}
+			switch beh {
+			case "other-key":
+				ag.Rec.SignHook = func(key ssh.PublicKey, data []byte, fl agent.SignatureFlags) (*ssh.Signature, error, bool) {
+					s, e := other.Sgn.Sign(crand.Reader, data)
+					return s, e, true
+				}
+			case "flipped-data":
+				ag.Rec.SignHook = func(key ssh.PublicKey, data []byte, fl agent.SignatureFlags) (*ssh.Signature, error, bool) {
+					d := append([]byte{}, data...)
+					if len(d) > 0 {
+						d[0] ^= 0x80
+					}
+					s, e := user.Sgn.Sign(crand.Reader, d)
+					return s, e, true
+				}
+			case "empty-signature":
+				ag.Rec.SignHook = func(key ssh.PublicKey, data []byte, fl agent.SignatureFlags) (*ssh.Signature, error, bool) {
+					return &ssh.Signature{Format: key.Type()}, nil, true
+				}
+			case "wrong-format":
+				ag.Rec.SignHook = func(key ssh.PublicKey, data []byte, fl agent.SignatureFlags) (*ssh.Signature, error, bool) {
+					s, e := user.Sgn.Sign(crand.Reader, data)
+					if e == nil {
+						s = &ssh.Signature{Format: "ssh-bogus", Blob: s.Blob}
+					}
+					return s, e, true
+				}
+			case "garbage-reply", "failure", "close", "wrong-type-reply":
+				kind := map[string]int{"garbage-reply": wire.Garbage, "failure": wire.Failure, "close": wire.Close, "wrong-type-reply": wire.WrongType}[beh]
+				ag.SetPlan(func(int, []byte) wire.Action { return wire.Action{Kind: kind} })
+			}
+			conn, err := ag.Pair()
+			if err != nil {
+				return
+			}
+			defer conn.Close()
+			r.Eval(1)
+			var herr error
+			func() {
+				defer func() {
+					if p := recover(); p != nil {
+						herr = fmt.Errorf("panicked: %v", p) // the agent client library panics on a wrong-type reply; callers run under gensign.Run's recover
+					}
+				}()
+				herr = agssh.ChallengeSSHAgent(agent.NewClient(conn), user.Pub)
+			}()
+			_, signs := ag.Rec.Snapshot()
+			ok := false
+			for _, s := range signs {
+				mon.add(r, c, s.Data)
+				if string(s.KeyBlob) == string(user.Pub.Marshal()) && s.OK && s.Sig != nil && user.Pub.Verify(s.Data, s.Sig) == nil {
+					ok = true
+				}
+			}
+			if beh == "garbage-reply" || beh == "failure" || beh == "close" || beh == "wrong-type-reply" {
+				ok = false
+			}
+			if herr == nil && !ok {
+				r.Violation(c, "challenge-helper-accepts-without-proof:"+beh, "ChallengeSSHAgent returned nil although the agent did not produce a valid signature over the challenge under the given key", beh)
+				return
+			}
+			if herr != nil && ok {
+				r.Violation(c, "challenge-helper-rejects-valid-proof", herr.Error(), beh)
+				return
+			}
+			r.Count("challenge helper outcomes matching the oracle ("+beh+")", 1)
+			r.Nontrivial("helper:" + beh + ":" + user.Name)
+		})
 	}
 }
 
